@@ -312,7 +312,9 @@ def c20_run(desc):
     s = sc.Scratch("c20")
     try:
         cmds = ["build", "test"]
-        T20 = [{"path": LONG_A}, {"path": LONG_B}] if desc.get("names") == "long" else TARGETS20
+        T20 = [{"path": LONG_A}, {"path": LONG_B}] if desc.get("names") == "long" else \
+            [{"path": ".ci"}, {"path": "ci"}] if desc.get("names") == "dot" else \
+            [{"path": "my target"}, {"path": "x."}] if desc.get("names") == "odd" else TARGETS20
         r = sc.Repo(s, "r", T20, commands={t["path"]: {c: "x" for c in cmds} for t in T20}, init_git=False)
         c = ctlmod.Controller(s)
         try:
@@ -486,6 +488,11 @@ def c20_scenarios(tier):
     # both targets with long paths of 2- and 3-byte characters (different ASCII prefix and suffix lengths)
     for s_, t, c in [(["--stdout", "--stderr"], [], []), (["--stdout"], [LONG_A], []), (["--stderr"], [LONG_B], ["build"])]:
         out.append({"streams": s_, "targets": t, "commands": c, "short": True, "names": "long"})
+    # target names a filter value could be "normalised" into something else: a leading dot next to the
+    # same name without it, a space, a trailing dot
+    for names, tsubs in (("dot", [[".ci"], ["ci"], []]), ("odd", [["my target"], ["x."]])):
+        for tf in tsubs:
+            out.append({"streams": ["--stdout", "--stderr"], "targets": tf, "commands": [], "short": True, "names": names})
     # a failing member: its sibling is cancelled while it has output that no periodic flush has handled
     for s_, t, c in [(["--stdout", "--stderr"], [], []), (["--stderr"], [], ["test"]), (["--stdout"], [B20], [])]:
         out.append({"streams": s_, "targets": t, "commands": c, "short": True, "sibling_fails": True})
